@@ -1,3 +1,5 @@
+//! generated split of the executors: one module per group so that each group gets its own codegen unit
+#![allow(unused_imports)]
 //! Executors: serde seams (C17). A recording `Serializer`, a scripted `Deserializer` /
 //! `SeqAccess`, and torn / ill-typed input through the real bincode and serde_json.
 
@@ -355,19 +357,10 @@ impl<'de> DeserializeSeed<'de> for RefSeed {
 
 // ---------------------------------------------------------------------------
 
-impl<E: Elem> World<E> {
-    pub fn apply_serde(&mut self, cx: &mut Cx, op: &Op) {
-        let a = op.args;
-        match op.kind {
-            OpKind::SerRecord => self.op_ser_record(cx, a),
-            OpKind::SerReal => self.op_ser_real(cx, a),
-            OpKind::DeScripted => self.op_de_scripted(cx, a),
-            OpKind::DeReal => self.op_de_real(cx, a),
-            _ => unreachable!(),
-        }
-    }
+ops_group!(GSerde);
 
-    fn op_ser_record(&mut self, cx: &mut Cx, a: [u32; N_ARGS]) {
+impl<'a, E: Elem> GSerde<'a, E> {
+    pub fn op_ser_record(&mut self, cx: &mut Cx, a: [u32; N_ARGS]) {
         let Some(i) = pick_len(self.arrs.len(), a[0]) else { cx.ops_noop += 1; return };
         let arr = &self.arrs[i];
         let n = arr.len();
@@ -393,7 +386,7 @@ impl<E: Elem> World<E> {
         }
     }
 
-    fn op_ser_real(&mut self, cx: &mut Cx, a: [u32; N_ARGS]) {
+    pub fn op_ser_real(&mut self, cx: &mut Cx, a: [u32; N_ARGS]) {
         let Some(i) = pick_len(self.arrs.len(), a[0]) else { cx.ops_noop += 1; return };
         let format = a[1] % 3;
         let li = self.arrs[i].len_idx();
@@ -474,7 +467,7 @@ impl<E: Elem> World<E> {
         }
     }
 
-    fn op_de_scripted(&mut self, cx: &mut Cx, a: [u32; N_ARGS]) {
+    pub fn op_de_scripted(&mut self, cx: &mut Cx, a: [u32; N_ARGS]) {
         let li = lens_idx(a[0]);
         let n = LENS[li];
         let c = a[1] as usize % (n + 3);
@@ -560,7 +553,7 @@ impl<E: Elem> World<E> {
         }
     }
 
-    fn op_de_real(&mut self, cx: &mut Cx, a: [u32; N_ARGS]) {
+    pub fn op_de_real(&mut self, cx: &mut Cx, a: [u32; N_ARGS]) {
         let li = lens_idx(a[0]);
         let n = LENS[li];
         if n > 100 {
@@ -662,4 +655,5 @@ impl<E: Elem> World<E> {
             Err(p) => on_panic(cx, "deserialize (real format)", p),
         }
     }
+
 }
